@@ -328,3 +328,116 @@ Definition run_class (fuel : nat) (c : class) (globals : list str) (calls : list
   run_calls ClassForm c fuel calls (init_state c globals) [].
 Definition run_explicit (fuel : nat) (c : class) (globals : list str) (calls : list (str * Z)) :=
   run_calls ExplicitForm (desugar_class c) fuel calls (init_state c globals) [].
+
+(* ---- the same class-form semantics written the usual way: a bare name is a local iff the ENVIRONMENT binds it
+   (no static scope is threaded).  Proofs/C11.v shows it coincides with eval_* ClassForm. ---- *)
+Definition bound (x : str) (env : store) : bool := match sget x env with Some _ => true | None => false end.
+
+Section EvalDyn.
+Variable cls : class.
+
+Fixpoint dyn_expr (fuel : nat) (env : store) (st : mstate) (e : expr) {struct fuel} : outcome (Z * mstate) :=
+  match fuel with O => Fuel | S f =>
+  match e with
+  | EInt z => Val (z, st)
+  | EId x =>
+      if bound x env then Val (sval x env, st)
+      else if is_field cls x then Val (sval x (sfields st), st) else Val (sval x (sglobals st), st)
+  | EThis x => Val (sval x (sfields st), st)
+  | EAdd a b =>
+      match dyn_expr f env st a with
+      | Val (x, st1) => match dyn_expr f env st1 b with Val (y, st2) => Val (x + y, st2) | o => o end
+      | o => o end
+  | EMul a b =>
+      match dyn_expr f env st a with
+      | Val (x, st1) => match dyn_expr f env st1 b with Val (y, st2) => Val (x * y, st2) | o => o end
+      | o => o end
+  | ELt a b =>
+      match dyn_expr f env st a with
+      | Val (x, st1) => match dyn_expr f env st1 b with
+                        | Val (y, st2) => Val ((if x <? y then 1 else 0), st2) | o => o end
+      | o => o end
+  | ECall m a =>
+      match dyn_expr f env st a with
+      | Val (v, st1) =>
+          if bound m env then Undefined
+          else if mem_str m (map mname (cmethods cls)) then dyn_call f m v st1 else Undefined
+      | o => o end
+  | EThisCall m a =>
+      match dyn_expr f env st a with
+      | Val (v, st1) => dyn_call f m v st1
+      | o => o end
+  end end
+
+with dyn_call (fuel : nat) (m : str) (v : Z) (st : mstate) {struct fuel} : outcome (Z * mstate) :=
+  match fuel with O => Fuel | S f =>
+  match find_method (cmethods cls) m with
+  | None => Undefined
+  | Some md =>
+      match dyn_stmts f [(mparam md, v)] st (mbody md) with
+      | Val (_, st1, Some r) => Val (r, st1)
+      | Val (_, st1, None) => Val (0, st1)
+      | Undefined => Undefined
+      | Fuel => Fuel
+      end
+  end end
+
+with dyn_stmts (fuel : nat) (env : store) (st : mstate) (b : stmts) {struct fuel} : outcome sres :=
+  match fuel with O => Fuel | S f =>
+  match b with
+  | SNil => Val (env, st, None)
+  | SCons s r =>
+    match s with
+    | SAssign x e =>
+        match dyn_expr f env st e with
+        | Val (v, st1) =>
+            if bound x env then dyn_stmts f (sset x v env) st1 r
+            else if is_field cls x then dyn_stmts f env (mkms (sset x v (sfields st1)) (sglobals st1) (strace st1)) r
+            else dyn_stmts f env (mkms (sfields st1) (sset x v (sglobals st1)) (strace st1)) r
+        | Undefined => Undefined | Fuel => Fuel end
+    | SThisAssign x e =>
+        match dyn_expr f env st e with
+        | Val (v, st1) => dyn_stmts f env (mkms (sset x v (sfields st1)) (sglobals st1) (strace st1)) r
+        | Undefined => Undefined | Fuel => Fuel end
+    | SDefine x e =>
+        match dyn_expr f env st e with
+        | Val (v, st1) => dyn_stmts f ((x, v) :: env) st1 r
+        | Undefined => Undefined | Fuel => Fuel end
+    | SPrint e =>
+        match dyn_expr f env st e with
+        | Val (v, st1) => dyn_stmts f env (mkms (sfields st1) (sglobals st1) (strace st1 ++ [v])) r
+        | Undefined => Undefined | Fuel => Fuel end
+    | SExpr e =>
+        match dyn_expr f env st e with
+        | Val (_, st1) => dyn_stmts f env st1 r
+        | Undefined => Undefined | Fuel => Fuel end
+    | SIf c t e =>
+        match dyn_expr f env st c with
+        | Val (v, st1) =>
+            match dyn_stmts f env st1 (if Z.eqb v 0 then e else t) with
+            | Val (env1, st2, Some rv) => Val (env1, st2, Some rv)
+            | Val (env1, st2, None) => dyn_stmts f (skipn (length env1 - length env) env1) st2 r
+            | Undefined => Undefined | Fuel => Fuel
+            end
+        | Undefined => Undefined | Fuel => Fuel end
+    | SReturn e =>
+        match dyn_expr f env st e with
+        | Val (v, st1) => Val (env, st1, Some v)
+        | Undefined => Undefined | Fuel => Fuel end
+    end
+  end end.
+
+Fixpoint dyn_calls (fuel : nat) (calls : list (str * Z)) (st : mstate) (acc : list Z) : outcome (list Z * mstate) :=
+  match calls with
+  | [] => Val (rev acc, st)
+  | (m, v) :: t =>
+      match dyn_call fuel m v st with
+      | Val (r, st1) => dyn_calls fuel t st1 (r :: acc)
+      | Undefined => Undefined
+      | Fuel => Fuel
+      end
+  end.
+End EvalDyn.
+
+Definition run_class_dyn (fuel : nat) (c : class) (globals : list str) (calls : list (str * Z)) :=
+  dyn_calls c fuel calls (init_state c globals) [].
